@@ -13,8 +13,8 @@ theorem nodupB_iff : ∀ l : List Id, nodupB l = true ↔ l.Nodup
 /-- ids added by a history -/
 def addedIds (ops : List (Op V)) : List Id := Flat.addedIds (ops.map Op.toFlat)
 
-theorem addedIds_cons_add (id : Id) (v : V) (l : Nat) (rest : List (Op V)) :
-    addedIds (Op.add id v l :: rest) = id :: addedIds rest := rfl
+theorem addedIds_cons_add (id : Id) (v : V) (l : Nat) (p : Id) (rest : List (Op V)) :
+    addedIds (Op.add id v l p :: rest) = id :: addedIds rest := rfl
 theorem addedIds_cons_remove (id : Id) (rest : List (Op V)) :
     addedIds (Op.remove id :: rest : List (Op V)) = addedIds rest := rfl
 theorem addedIds_cons_flush (e : Id) (rest : List (Op V)) :
@@ -28,11 +28,12 @@ theorem init_inv (dim M efC efS : Nat) : Inv (HNSW.init dim M efC efS : State V)
   have hnb : ∀ l j, nbrsAt (HNSW.init dim M efC efS : State V) l j = [] := by
     intro l j; simp [nbrsAt, hget]
   have hcnt : (HNSW.init dim M efC efS : State V).nodes.count = 0 := (count_eq_zero_iff _).2 hc
-  refine ⟨?_, ?_, fun h => absurd hcnt h, fun h => absurd hcnt h, fun _ => rfl, ?_, ?_⟩
+  refine ⟨?_, ?_, fun h => absurd hcnt h, fun h => absurd hcnt h, fun _ => rfl, ?_, ?_, ?_⟩
   · intro l j w hw; rw [hnb] at hw; cases hw
   · intro i hi; simp [isDeleted, HNSW.init, IdMap.contains] at hi
   · intro j hj; rw [hc] at hj; cases hj
   · intro u w hu; have := hu.1; rw [hc] at this; cases this
+  · intro w hw; have := hw.1; rw [hc] at this; cases this
 
 section
 variable (m : Metric V S)
@@ -50,9 +51,6 @@ theorem residentsLe_head (n : Nat) (s : State V) (ops : List (Op V))
     simp only [residentsLe, along_cons, Bool.and_eq_true, decide_eq_true_eq] at h
     exact h.1
 
-theorem entryLive_nil (s : State V) (h : entryLive m s [] = true) : isDeleted s s.entry = false := by
-  simpa [entryLive, along] using h
-
 /-- two duplicate-free lists with the same members -/
 theorem perm_of_mem_iff {α : Type} {l1 l2 : List α} (h1 : l1.Nodup) (h2 : l2.Nodup)
     (h : ∀ a, a ∈ l1 ↔ a ∈ l2) : l1.Perm l2 := (List.perm_ext_iff_of_nodup h1 h2).2 h
@@ -65,21 +63,21 @@ theorem step_inv (n : Nat) (s0 s1 : State V) (op : Op V) (l0 : List (Id × V))
     (hinv : Inv s0) (hn1 : n ≤ 2 * s0.M + 1) (hn2 : n ≤ s0.efC)
     (hfresh : ∀ i ∈ addedIds [op], i ≠ 0 ∧ s0.nodes.contains i = false)
     (hpick : ∀ e, op = .flush e → e ∈ flushChoices s0)
-    (hentry : (∃ id v l, op = .add id v l) → isDeleted s0 s0.entry = false)
+    (hpickA : ∀ id v l p, op = .add id v l p → addFlushes s0 id = true → p ∈ flushChoices s0)
     (hcount : s1.nodes.count ≤ n) (hperm : (stateLive s0).Perm l0)
     (hstep : step m s0 op = .ok s1) :
     Inv s1 ∧ s1.M = s0.M ∧ s1.efC = s0.efC ∧ s1.efS = s0.efS ∧ s1.dim = s0.dim ∧
     (∀ j, s1.nodes.contains j = true → s0.nodes.contains j = true ∨ j ∈ addedIds [op]) ∧
     (stateLive s1).Perm (Flat.specStep m s0.dim l0 op.toFlat) := by
   cases op with
-  | add x v level =>
+  | add x v level pk =>
     simp only [step] at hstep
     split at hstep
     · next s' e hadd =>
       simp only [Except.ok.injEq] at hstep; subst hstep
       obtain ⟨hx0, hxf⟩ := hfresh x (by simp [addedIds, Flat.addedIds, Op.toFlat])
-      obtain ⟨hinv', heff⟩ := add_inv m s0 s' x v level s0.entry e hinv hx0 hxf
-        (hentry ⟨x, v, level, rfl⟩) (by omega) (by omega) hadd
+      obtain ⟨hinv', heff⟩ := add_inv m s0 s' x v level pk e hinv hxf
+        (fun hd => hpickA x v level pk rfl (by simp [addFlushes, hd])) (by omega) (by omega) hadd
       refine ⟨hinv', heff.M, heff.efC, heff.efS, heff.dim, ?_, ?_⟩
       · intro j hj
         cases he : e with
@@ -87,10 +85,8 @@ theorem step_inv (n : Nat) (s0 s1 : State V) (op : Op V) (l0 : List (Id × V))
           have := (heff.rejected (by simp [he])).1
           rw [this] at hj; exact Or.inl hj
         | none =>
-          obtain ⟨v', _, _, _, hc, _, _⟩ := heff.accepted he
-          rw [hc] at hj
-          simp only [Bool.or_eq_true, decide_eq_true_eq] at hj
-          rcases hj with hj | hj
+          obtain ⟨v', _, _, _, _, _, hc⟩ := heff.accepted he
+          rcases hc j hj with hj | hj
           · exact Or.inr (by simp [addedIds, Flat.addedIds, Op.toFlat, hj])
           · exact Or.inl hj
       · cases he : e with
@@ -104,14 +100,9 @@ theorem step_inv (n : Nat) (s0 s1 : State V) (op : Op V) (l0 : List (Id × V))
             · exact hperm
             · simp [h1, hperm]
         | none =>
-          obtain ⟨v', hdim, hpre, hdel, hc, hold, ⟨nx, hnx, hnxv⟩⟩ := heff.accepted he
+          obtain ⟨v', hdim, hpre, hlive, hold, ⟨nx, hnx, hnxv⟩, _⟩ := heff.accepted he
           simp only [Op.toFlat, Flat.specStep, hdim, ne_eq, not_true_eq_false, if_false, hpre]
           refine List.Perm.trans ?_ (hperm.append_right _)
-          have hxdel : isDeleted s0 x = false := by
-            cases hd : isDeleted s0 x with
-            | false => rfl
-            | true => have := hinv.del_res x hd; rw [hxf] at this; cases this
-          have hdel' : ∀ j, isDeleted s' j = isDeleted s0 j := by intro j; simp [isDeleted, hdel]
           apply perm_of_mem_iff (stateLive_nodup s')
           · rw [List.nodup_append]
             refine ⟨stateLive_nodup s0, by simp, ?_⟩
@@ -124,22 +115,20 @@ theorem step_inv (n : Nat) (s0 s1 : State V) (op : Op V) (l0 : List (Id × V))
           · rintro ⟨i, w⟩
             simp only [List.mem_append, List.mem_singleton, Prod.mk.injEq, mem_stateLive]
             constructor
-            · rintro ⟨⟨hc1, hd1⟩, n1, hn1', rfl⟩
-              rw [hc] at hc1
-              simp only [Bool.or_eq_true, decide_eq_true_eq] at hc1
-              rcases hc1 with rfl | hc1
+            · rintro ⟨hl1, n1, hn1', rfl⟩
+              rcases (hlive i).1 hl1 with rfl | hl0
               · right
                 rw [hnx] at hn1'; cases hn1'
                 exact ⟨rfl, hnxv⟩
               · left
-                obtain ⟨n0, hn0⟩ := IdMap.contains_iff.1 hc1
-                obtain ⟨n', hn', hv'⟩ := hold i n0 hn0
+                obtain ⟨n0, hn0⟩ := IdMap.contains_iff.1 hl0.1
+                obtain ⟨n', hn', hv'⟩ := hold i n0 hl0 hn0
                 rw [hn'] at hn1'; cases hn1'
-                exact ⟨⟨hc1, by rw [← hdel']; exact hd1⟩, n0, hn0, hv'.symm⟩
-            · rintro (⟨⟨hc1, hd1⟩, n0, hn0, rfl⟩ | ⟨rfl, rfl⟩)
-              · obtain ⟨n', hn', hv'⟩ := hold i n0 hn0
-                exact ⟨⟨by rw [hc]; simp [hc1], by rw [hdel']; exact hd1⟩, n', hn', hv'⟩
-              · exact ⟨⟨by rw [hc]; simp, by rw [hdel']; exact hxdel⟩, nx, hnx, hnxv⟩
+                exact ⟨hl0, n0, hn0, hv'.symm⟩
+            · rintro (⟨hl0, n0, hn0, rfl⟩ | ⟨rfl, rfl⟩)
+              · obtain ⟨n', hn', hv'⟩ := hold i n0 hl0 hn0
+                exact ⟨(hlive i).2 (Or.inr hl0), n', hn', hv'⟩
+              · exact ⟨(hlive i).2 (Or.inl rfl), nx, hnx, hnxv⟩
     · cases hstep
   | remove id =>
     simp only [step, Except.ok.injEq] at hstep; subst hstep
@@ -162,7 +151,7 @@ theorem step_inv (n : Nat) (s0 s1 : State V) (op : Op V) (l0 : List (Id × V))
       exact ⟨⟨hc1, hd1, Or.inl (fun hh => hne hh.symm)⟩, hn⟩
   | flush e =>
     simp only [step, Except.ok.injEq] at hstep; subst hstep
-    obtain ⟨hinv', hdim, hM, hC, hS, hlive, hvec, hsub, _, _⟩ := flush_inv s0 e hinv (hpick e rfl)
+    obtain ⟨hinv', hdim, hM, hC, hS, hlive, hvec, hsub, _, _, _⟩ := flush_inv s0 e hinv (hpick e rfl)
     refine ⟨hinv', hM, hC, hS, hdim, fun j hj => Or.inl (hsub j hj), ?_⟩
     simp only [Op.toFlat, Flat.specStep]
     refine List.Perm.trans ?_ hperm
@@ -184,27 +173,27 @@ theorem run_inv (n : Nat) :
     ∀ (ops : List (Op V)) (s0 s : State V) (l0 : List (Id × V)),
       Inv s0 → n ≤ 2 * s0.M + 1 → n ≤ s0.efC →
       (∀ i ∈ addedIds ops, i ≠ 0 ∧ s0.nodes.contains i = false) → (addedIds ops).Nodup →
-      validPicks m s0 ops = true → entryLive m s0 ops = true → residentsLe m n s0 ops = true →
+      validPicks m s0 ops = true → residentsLe m n s0 ops = true →
       (stateLive s0).Perm l0 →
       run m s0 ops = .ok s →
       Inv s ∧ s.M = s0.M ∧ s.efC = s0.efC ∧ s.efS = s0.efS ∧ s.dim = s0.dim ∧
-      isDeleted s s.entry = false ∧ s.nodes.count ≤ n ∧
+      s.nodes.count ≤ n ∧
       (stateLive s).Perm ((ops.map Op.toFlat).foldl (Flat.specStep m s0.dim) l0) := by
   intro ops
   induction ops with
   | nil =>
-    intro s0 s l0 hinv _ _ _ _ _ he hr hperm hrun
+    intro s0 s l0 hinv _ _ _ _ _ hr hperm hrun
     simp only [run, Except.ok.injEq] at hrun; subst hrun
-    exact ⟨hinv, rfl, rfl, rfl, rfl, entryLive_nil m _ he, residentsLe_head m n _ [] hr, by simpa using hperm⟩
+    exact ⟨hinv, rfl, rfl, rfl, rfl, residentsLe_head m n _ [] hr, by simpa using hperm⟩
   | cons op rest ih =>
-    intro s0 s l0 hinv hn1 hn2 hfresh hnd hv he hr hperm hrun
-    simp only [validPicks, entryLive, residentsLe, along_cons, Bool.and_eq_true] at hv he hr
+    intro s0 s l0 hinv hn1 hn2 hfresh hnd hv hr hperm hrun
+    simp only [validPicks, residentsLe, along_cons, Bool.and_eq_true] at hv hr
     simp only [run] at hrun
     cases hstep : step m s0 op with
     | error e => rw [hstep] at hrun; cases hrun
     | ok s1 =>
-      rw [hstep] at hrun hv he hr
-      simp only at hrun hv he hr
+      rw [hstep] at hrun hv hr
+      simp only at hrun hv hr
       have hcount1 : s1.nodes.count ≤ n := residentsLe_head m n s1 rest hr.2
       have hsub : ∀ i ∈ addedIds [op], i ∈ addedIds (op :: rest) := by
         intro i hi
@@ -212,7 +201,11 @@ theorem run_inv (n : Nat) :
       obtain ⟨hinv1, hM, hC, hS, hdim, hres, hperm1⟩ := step_inv m n s0 s1 op l0 hinv hn1 hn2
         (fun i hi => hfresh i (hsub i hi))
         (by intro e' hop; subst hop; simpa using hv.1)
-        (by rintro ⟨id, v, l, rfl⟩; simpa using he.1)
+        (by
+          intro id v l p hop hfl; subst hop
+          have := hv.1
+          simp only [hfl, Bool.not_true, Bool.false_or] at this
+          simpa using this)
         hcount1 hperm hstep
       -- ids still to be added are fresh for the next state
       have hrestsub : ∀ i ∈ addedIds rest, i ∈ addedIds (op :: rest) := by
@@ -220,7 +213,7 @@ theorem run_inv (n : Nat) :
         cases op <;> simp_all [addedIds, Flat.addedIds, Op.toFlat]
       have hnd' : (addedIds rest).Nodup := by
         cases op with
-        | add id v l => rw [addedIds_cons_add] at hnd; exact (List.nodup_cons.1 hnd).2
+        | add id v l p => rw [addedIds_cons_add] at hnd; exact (List.nodup_cons.1 hnd).2
         | remove id => exact hnd
         | flush e => exact hnd
       have hfresh' : ∀ i ∈ addedIds rest, i ≠ 0 ∧ s1.nodes.contains i = false := by
@@ -233,7 +226,7 @@ theorem run_inv (n : Nat) :
           rcases hres i hc with h1 | h1
           · rw [(hfresh i (hrestsub i hi)).2] at h1; cases h1
           · cases op with
-            | add id v l =>
+            | add id v l p =>
               simp only [addedIds, Flat.addedIds, Op.toFlat, List.map_cons, List.map_nil,
                 List.mem_singleton] at h1
               subst h1
@@ -241,18 +234,17 @@ theorem run_inv (n : Nat) :
               exact (List.nodup_cons.1 hnd).1 hi
             | remove id => simp [addedIds, Flat.addedIds, Op.toFlat] at h1
             | flush e => simp [addedIds, Flat.addedIds, Op.toFlat] at h1
-      obtain ⟨r1, r2, r3, r4, r5, r6, r7, r8⟩ := ih s1 s _ hinv1 (by rw [hM]; exact hn1)
-        (by rw [hC]; exact hn2) hfresh' hnd' hv.2 he.2 hr.2 hperm1 hrun
-      refine ⟨r1, r2.trans hM, r3.trans hC, r4.trans hS, r5.trans hdim, r6, r7, ?_⟩
+      obtain ⟨r1, r2, r3, r4, r5, r7, r8⟩ := ih s1 s _ hinv1 (by rw [hM]; exact hn1)
+        (by rw [hC]; exact hn2) hfresh' hnd' hv.2 hr.2 hperm1 hrun
+      refine ⟨r1, r2.trans hM, r3.trans hC, r4.trans hS, r5.trans hdim, r7, ?_⟩
       rw [hdim] at r8
       simpa using r8
 
 /-- the small regime of a history, as one decidable predicate: fresh non-zero ids, allowed
-    flush picks, the entry point never soft-deleted at an add nor at the end, never more than
-    `n ≤ min (2M+1) efConstruction` resident vertices -/
+    flush picks, never more than `n ≤ min (2M+1) efConstruction` resident vertices -/
 def smallRegime (dim M efC efS n : Nat) (ops : List (Op V)) : Bool :=
   freshAdds ops && validPicks m (HNSW.init dim M efC efS) ops &&
-  entryLive m (HNSW.init dim M efC efS) ops && residentsLe m n (HNSW.init dim M efC efS) ops &&
+  residentsLe m n (HNSW.init dim M efC efS) ops &&
   decide (n ≤ 2 * M + 1) && decide (n ≤ efC)
 
 theorem stateLive_init (dim M efC efS : Nat) : stateLive (HNSW.init dim M efC efS : State V) = [] := by
@@ -267,15 +259,14 @@ theorem stateLive_init (dim M efC efS : Nat) : stateLive (HNSW.init dim M efC ef
 theorem regime_facts (dim M efC efS n : Nat) (ops : List (Op V)) (s : State V)
     (hreg : smallRegime m dim M efC efS n ops = true)
     (hrun : run m (HNSW.init dim M efC efS) ops = .ok s) :
-    Inv s ∧ s.M = M ∧ s.efC = efC ∧ s.efS = efS ∧ s.dim = dim ∧
-    isDeleted s s.entry = false ∧ s.nodes.count ≤ n ∧
+    Inv s ∧ s.M = M ∧ s.efC = efC ∧ s.efS = efS ∧ s.dim = dim ∧ s.nodes.count ≤ n ∧
     (stateLive s).Perm (liveSpec m dim ops) := by
   simp only [smallRegime, Bool.and_eq_true, decide_eq_true_eq] at hreg
-  obtain ⟨⟨⟨⟨⟨hf, hv⟩, he⟩, hr⟩, hn1⟩, hn2⟩ := hreg
+  obtain ⟨⟨⟨⟨hf, hv⟩, hr⟩, hn1⟩, hn2⟩ := hreg
   simp only [freshAdds, Bool.and_eq_true, List.all_eq_true, bne_iff_ne, ne_eq] at hf
   have := run_inv m n ops (HNSW.init dim M efC efS) s [] (init_inv dim M efC efS) hn1 hn2
     (fun i hi => ⟨hf.1 i hi, by simp [HNSW.init, IdMap.contains]⟩) ((nodupB_iff _).1 hf.2)
-    hv he hr (by rw [stateLive_init]) hrun
+    hv hr (by rw [stateLive_init]) hrun
   exact this
 
 theorem searchSingle_empty (s : State V) (q : V) (k : Int) (thr : S) (F : List Id) (ef : Int)
@@ -296,7 +287,7 @@ theorem regime_exact (ord : m.sc.Ordered) (dim M efC efS n : Nat) (ops : List (O
     (hq : m.dimOf q = dim) (hpre : m.pre q = some q') (hef : n ≤ efUsed s ef)
     (res : List (Hit S)) (h : searchSingle m s q k thr F ef = .ok (.ok res)) :
     IsTopK m.sc.le k (Flat.cands m (liveSpec m dim ops) q' thr F) res := by
-  obtain ⟨hinv, _, _, _, hdim, hent, hcnt, hperm⟩ := regime_facts m dim M efC efS n ops s hreg hrun
+  obtain ⟨hinv, _, _, _, hdim, hcnt, hperm⟩ := regime_facts m dim M efC efS n ops s hreg hrun
   have hcands : (Flat.cands m (stateLive s) q' thr F).Perm (Flat.cands m (liveSpec m dim ops) q' thr F) :=
     hperm.filterMap _
   by_cases h0 : s.nodes.count = 0
@@ -315,26 +306,44 @@ theorem regime_exact (ord : m.sc.Ordered) (dim M efC efS n : Nat) (ops : List (O
       simp only [Flat.cands, List.filterMap_nil, List.length_nil] at this
       exact List.eq_nil_of_length_eq_zero this.symm
     rw [this]; exact isTopK_nil _ k
-  · have hlive : Live s s.entry := ⟨hinv.entry_res h0, hent⟩
+  · have hgood : CurrGood s s.entry := ⟨hinv.entry_res h0, hinv.entry_comp⟩
     have hml : s.maxLevel ≠ -1 := by have := hinv.ml h0; omega
     have hlen : (liveIds s).length ≤ efUsed s ef := by
       have : (liveIds s).length ≤ s.nodes.count := by
         simp only [liveIds, IdMap.count]; exact List.length_filter_le _ _
       omega
     exact IsTopK.of_perm (search_exact_state m ord s hinv.comp
-      (fun u _ w hw => hinv.resolves 0 u w hw) hlive hml q q' k thr F ef (by rw [hdim]; exact hq)
+      (fun u w hw => hinv.resolves 0 u w hw) hgood hml q q' k thr F ef (by rw [hdim]; exact hq)
       hpre hlen res h) hcands
 
 /-- reachability along histories of the small regime -/
 theorem regime_reachable (dim M efC efS n : Nat) (ops : List (Op V)) (s : State V)
     (hreg : smallRegime m dim M efC efS n ops = true)
     (hrun : run m (HNSW.init dim M efC efS) ops = .ok s) : Reachable s := by
-  obtain ⟨hinv, _, _, _, _, hent, _, _⟩ := regime_facts m dim M efC efS n ops s hreg hrun
+  obtain ⟨hinv, _, _, _, _, _, _⟩ := regime_facts m dim M efC efS n ops s hreg hrun
   by_cases h0 : s.nodes.count = 0
   · intro i hi
     have := (count_eq_zero_iff _).1 h0 i
     rw [(mem_liveIds.1 hi).1] at this; cases this
-  · exact reachable_state s hinv.comp ⟨hinv.entry_res h0, hent⟩
+  · exact reachable_state s ⟨hinv.entry_res h0, hinv.entry_comp⟩
+
+/-- non-emptiness along histories of the small regime: unconditional -/
+theorem regime_nonempty (ord : m.sc.Ordered) (dim M efC efS n : Nat) (ops : List (Op V)) (s : State V)
+    (hreg : smallRegime m dim M efC efS n ops = true)
+    (hrun : run m (HNSW.init dim M efC efS) ops = .ok s) (hlive : liveIds s ≠ [])
+    (q q' : V) (k ef : Int) (hq : m.dimOf q = dim) (hpre : m.pre q = some q')
+    (res : List (Hit S)) (h : searchSingle m s q k m.sc.zero [] ef = .ok (.ok res)) : res ≠ [] := by
+  obtain ⟨hinv, _, _, _, hdim, _, _⟩ := regime_facts m dim M efC efS n ops s hreg hrun
+  obtain ⟨v, hv⟩ := List.exists_mem_of_ne_nil _ hlive
+  have hvl := mem_liveIds.1 hv
+  have h0 : s.nodes.count ≠ 0 := count_ne_zero_of_live hvl
+  have hml : s.maxLevel ≠ -1 := by have := hinv.ml h0; omega
+  have hreach : Reach (nbrsAt s 0) s.entry v := by
+    by_cases he : v = s.entry
+    · rw [he]; exact Reach.refl
+    · exact Reach.step Reach.refl (hinv.entry_comp v hvl he)
+  exact search_nonempty_state m ord s (hinv.entry_res h0) hml v hvl hreach q q' k ef
+    (by rw [hdim]; exact hq) hpre res h
 
 end
 end Comet.HNSW
